@@ -113,9 +113,15 @@ func NewJITCompilerWithConfig(hotPathThreshold int, recompileWindow time.Duratio
 func (jit *JITCompiler) CompileRoute(name string, route *ast.Route) ([]byte, error) {
 	startTime := time.Now()
 
-	// Check if we have a cached compiled unit
+	// Check if we have a cached compiled unit. Bytecode, Tier and CompiledAt of a
+	// unit are rewritten by recompileRoute under unitsMux, so they are only read
+	// while holding it.
 	jit.unitsMux.RLock()
 	unit, exists := jit.units[name]
+	var cached []byte
+	if exists {
+		cached = unit.Bytecode
+	}
 	jit.unitsMux.RUnlock()
 
 	if exists {
@@ -129,7 +135,7 @@ func (jit *JITCompiler) CompileRoute(name string, route *ast.Route) ([]byte, err
 			return jit.recompileRoute(name, route, unit)
 		}
 
-		return unit.Bytecode, nil
+		return cached, nil
 	}
 
 	// Cache miss - compile for the first time
@@ -192,8 +198,13 @@ func (jit *JITCompiler) RecordExecution(name string, executionTime time.Duration
 
 // shouldRecompile determines if a route should be recompiled to a higher tier
 func (jit *JITCompiler) shouldRecompile(unit *CompilationUnit) bool {
+	jit.unitsMux.RLock()
+	tier := unit.Tier
+	compiledAt := unit.CompiledAt
+	jit.unitsMux.RUnlock()
+
 	// Don't recompile if already at highest tier
-	if unit.Tier >= TierHighlyOptimized {
+	if tier >= TierHighlyOptimized {
 		return false
 	}
 
@@ -212,9 +223,9 @@ func (jit *JITCompiler) shouldRecompile(unit *CompilationUnit) bool {
 	// Recompile if:
 	// 1. Execution count is high enough
 	// 2. It's been long enough since last compilation
-	timeSinceCompile := time.Since(unit.CompiledAt)
+	timeSinceCompile := time.Since(compiledAt)
 
-	switch unit.Tier {
+	switch tier {
 	case TierInterpreted, TierBaseline:
 		// Upgrade to optimized if executed frequently
 		return profile.ExecutionCount >= int64(hotPathThreshold/2) &&
@@ -233,7 +244,10 @@ func (jit *JITCompiler) recompileRoute(name string, route *ast.Route, currentUni
 	startTime := time.Now()
 
 	// Determine next tier
-	nextTier := jit.getNextTier(currentUnit.Tier)
+	jit.unitsMux.RLock()
+	currentTier := currentUnit.Tier
+	jit.unitsMux.RUnlock()
+	nextTier := jit.getNextTier(currentTier)
 
 	// Compile with new tier
 	bytecode, err := jit.compileWithTier(route, nextTier)
@@ -435,13 +449,17 @@ func (jit *JITCompiler) CompileRouteWithTypes(name string, route *ast.Route, typ
 func (jit *JITCompiler) CheckAdaptiveRecompilation(name string, route *ast.Route) (bool, error) {
 	jit.unitsMux.RLock()
 	unit, exists := jit.units[name]
+	var tier OptimizationTier
+	if exists {
+		tier = unit.Tier
+	}
 	jit.unitsMux.RUnlock()
 
 	if !exists {
 		return false, nil
 	}
 
-	trigger := jit.recompileTrigger.ShouldRecompile(name, unit.Tier)
+	trigger := jit.recompileTrigger.ShouldRecompile(name, tier)
 	if !trigger.ShouldRecompile {
 		return false, nil
 	}
@@ -462,14 +480,12 @@ func (jit *JITCompiler) CheckAdaptiveRecompilation(name string, route *ast.Route
 
 // RecordDeoptimization records when specialized code had to deoptimize
 func (jit *JITCompiler) RecordDeoptimization(routeName string, reason string, typeMismatch map[string]string) {
-	jit.unitsMux.RLock()
-	unit, exists := jit.units[routeName]
-	jit.unitsMux.RUnlock()
-
 	var fromTier OptimizationTier
-	if exists {
+	jit.unitsMux.RLock()
+	if unit, exists := jit.units[routeName]; exists {
 		fromTier = unit.Tier
 	}
+	jit.unitsMux.RUnlock()
 
 	record := DeoptimizationRecord{
 		RouteName:    routeName,
